@@ -145,3 +145,13 @@ Proof.
     split; [exact Hk|]. subst k. destruct ok; [reflexivity|].
     destruct (H5 eq_refl) as [_ Hl]. cbn in Hl. congruence.
 Qed.
+
+Lemma release_rounds_bounded_lemma :
+  forall retries valid k ok,
+  release_rounds retries valid = (k, ok) ->
+  1 <= k /\ k <= Nat.max 1 retries /\
+  (ok = true <-> exists j, j < Nat.max 1 retries /\ valid j = true).
+Proof.
+  intros retries valid k ok H.
+  destruct (release_loop_bounded_lemma retries valid k ok H) as [H1 [H2 [H3 _]]]. auto.
+Qed.
